@@ -100,21 +100,23 @@ def trieInsert : TDict → Bytes → Nat → Except Err TDict
 
 /-! ## UTF-16BE with errors ignored (`bytes.decode("UTF-16BE", "ignore")`) -/
 
-def utf16Ignore : Bytes → List Nat
-  | a :: b :: rest =>
-    let u := be2 a b
-    if 0xD800 ≤ u ∧ u < 0xDC00 then
-      match rest with
-      | c :: d :: rest' =>
-        let v := be2 c d
-        if 0xDC00 ≤ v ∧ v < 0xE000 then
-          (0x10000 + (u - 0xD800) * 1024 + (v - 0xDC00)) :: utf16Ignore rest'
-        else utf16Ignore (c :: d :: rest')
-      | _ => []
-    else if 0xDC00 ≤ u ∧ u < 0xE000 then utf16Ignore rest
-    else u :: utf16Ignore rest
-  | _ => []
-termination_by s => s.length
+/-- `pend` is a high surrogate read in the previous unit and still waiting for its low surrogate. -/
+def utf16Aux : Option Nat → Bytes → List Nat
+  | pend, a :: b :: rest =>
+    match pend with
+    | some hi =>
+      if 0xDC00 ≤ be2 a b ∧ be2 a b < 0xE000 then
+        (0x10000 + (hi - 0xD800) * 1024 + (be2 a b - 0xDC00)) :: utf16Aux none rest
+      else if 0xD800 ≤ be2 a b ∧ be2 a b < 0xDC00 then utf16Aux (some (be2 a b)) rest
+      else be2 a b :: utf16Aux none rest
+    | none =>
+      if 0xD800 ≤ be2 a b ∧ be2 a b < 0xDC00 then utf16Aux (some (be2 a b)) rest
+      else if 0xDC00 ≤ be2 a b ∧ be2 a b < 0xE000 then utf16Aux none rest
+      else be2 a b :: utf16Aux none rest
+  | _, _ => []
+
+/-- Unpaired surrogates and a trailing odd byte are dropped. -/
+def utf16Ignore (s : Bytes) : List Nat := utf16Aux none s
 
 /-! ## `FileUnicodeMap` -/
 
